@@ -10,9 +10,9 @@ def gen_seq(rng, name, via, nops, mut_chance):
     serial = 1
     for _ in range(nops):
         if rng.chance(*mut_chance):
-            lines.append(f"mut ty={rng.below(3)} s={serial}")
+            lines.append(f"mut ty={rng.below(4)} s={serial}")
         else:
-            lines.append(f"ref ty={rng.below(3)} s={serial}")
+            lines.append(f"ref ty={rng.below(4)} s={serial}")
         serial += 1
     lines.append('end')
     return '\n'.join(lines) + '\n'
@@ -24,7 +24,7 @@ class Check:
 
     def rule(self):
         return ("sequential: random sequences of make_ref / make_mut (three payload types, drop-tracking, serial numbers), "
-                "directly on ValueChain, through an original Unimock and through a clone; every retained reference is re-read "
+                "directly on ValueChain, through an original Unimock and through a clone (payloads incl. a zero-sized Drop type); values lent through the delegation helpers of &mut self / &self provided methods (dropped only at teardown); every retained reference is re-read "
                 "after every further operation (serial + address distinctness) and the drop log is compared per operation "
                 "with the Lean model; long chains (thousands of values); a chain of 5000 values released by one make_mut on a thread with a 48 KiB stack, in its own process (the release must not recurse per node); concurrent: 2-4 threads lending through one shared "
                 "&ValueChain / &Unimock under the controlled scheduler (yield before every try_insert), ALL schedules up to the "
@@ -87,6 +87,8 @@ class Check:
             for k, (th, per, pre) in enumerate(pars):
                 for via in ('chain', 'unimock'):
                     texts.append(f"scenario p{k}_{via}\nvia {via}\npar threads={th} per={per} pre={pre}\nend\n")
+            for n in ([1, 2, 3, 7] if tier == 'quick' else [1, 2, 3, 7, 50, 400]):
+                texts.append(f"scenario helper_{n}\nvia unimock\nhelper n={n}\nend\n")
             rounds = 40 if tier == 'quick' else 600
             for via in ('chain', 'unimock'):
                 texts.append(f"scenario stress_{via}\nvia {via}\nstress threads=8 per=150 rounds={rounds}\nend\n")
@@ -113,6 +115,17 @@ class Check:
             if crash:
                 total += 1
                 spec_bad.append((n, f"lending panicked: {crash[6:200]}"))
+                continue
+            if any(l.startswith('helper ') for l in r):
+                line = next(l for l in r if l.startswith('helper '))
+                mm = re.match(r'helper n=(\d+) wrong=(\d+) early=\[(.*)\] dropped_at_teardown=(\d+)$', line)
+                total += 1; nontriv += 1
+                if not mm:
+                    spec_bad.append((n, f"unparsable line {line}"))
+                elif mm.group(3):
+                    spec_bad.append((n, f"values lent through a default-method delegation helper were dropped while the mock was still alive and unverified: {mm.group(3)[:200]}"))
+                elif mm.group(4) != mm.group(1) or mm.group(2) != '0':
+                    spec_bad.append((n, f"{mm.group(1)} values lent through delegation helpers, {mm.group(4)} dropped at teardown, {mm.group(2)} wrong results"))
                 continue
             if any(l.startswith('stress ') for l in r):
                 line = next(l for l in r if l.startswith('stress '))
@@ -145,6 +158,27 @@ class Check:
                     bad = f"two live references share an address after `{op}`"; break
                 if op == 'ref' and drops:
                     bad = f"values {drops} were dropped while lending (only make_mut / teardown may release)"; break
+            if bad is None:
+                # dropped exactly once: make_mut releases everything lent before it, teardown releases the rest
+                alive = []
+                oplines = [x for x in per_text[n].split('\n')[2:] if x.startswith(('ref ', 'mut '))]
+                k = 0
+                for l in r:
+                    dm = re.search(r' drops=(\S*)$', l)
+                    got_d = sorted(int(x) for x in dm.group(1).split(',') if x) if dm else []
+                    if l.startswith('drop '):
+                        if got_d != sorted(alive):
+                            bad = f"teardown dropped {got_d} but the values still lent were {sorted(alive)}"
+                        break
+                    if k >= len(oplines):
+                        break
+                    sr = int(re.search(r's=(\d+)', oplines[k]).group(1)); k += 1
+                    if l.startswith('mut '):
+                        if got_d != sorted(alive):
+                            bad = f"make_mut released {got_d} but the values lent before it were {sorted(alive)}"; break
+                        alive = [sr]
+                    else:
+                        alive.append(sr)
             if bad is None:
                 # every reference reads the serial it was created with: reads of a phase are increasing prefixes
                 phase = []
